@@ -556,6 +556,9 @@ func (m *Model) newSC(ev Event) {
 		}
 		if n := m.poolSize(); n > m.maxPool {
 			m.maxPool = n
+			if n == 33 {
+				m.probe("pool_reached_33_channels")
+			}
 		}
 		if m.cfg.min <= m.cfg.max && m.poolSize() > m.cfg.max {
 			m.v("C03", "pool-exceeds-max", "", fmt.Sprintf("pool has %d channels, maxSize %d", m.poolSize(), m.cfg.max), ev.Op)
